@@ -3,7 +3,7 @@
   Property theorems only; helper lemmas in ASV/Proofs/RegionExtract*.lean.
 
   `writeToGenbank rd rec = .ok w` : the model of `write_to_genbank(region, record, handle)` (the code
-  with fixes D10, D21, D21b–e applied) wrote the record `w.extract` and left the full record's
+  with fixes D10, D21, D21b–e and D58 applied) wrote the record `w.extract` and left the full record's
   features as `w.parentAfter`.  `rec.length` is the record length `L`; position `i` of the file is
   position `toRecord L rd i` of the record (`start + i`, modulo `L` over the origin).
 
@@ -22,14 +22,16 @@
     inside_kept_partial          every feature inside the region is written (origin-spanning ones: one part on
                                  each side of the origin)
     extract_reloads_partial      the file is numbered as a record loading it numbers it (1..n per kind, each
-                                 number once, in load order), every reference by number resolves, `core_location`
-                                 texts read back to the bases of the `proto_core` features
+                                 number once, in load order), every reference by number resolves, there is one
+                                 region feature spanning the file, `core_location` texts read back to the bases of
+                                 the `proto_core` features (also `regionFeatureOK`)
+    write_succeeds_partial       (also `writable`) `write_to_genbank` does not raise
     references_resolve_partial   the written feature a rewritten reference points at is the image of the
                                  original referent
   Left to the executable spec on the real output (correspondence): `Record.from_genbank` itself (executed, not
-  modelled) showing one region with the same content; leader/tail texts; that the write does not raise.
+  modelled) showing one region with the same content; leader/tail texts.
 -/
-import ASV.Proofs.RegionExtractFinal
+import ASV.Proofs.RegionExtractRegion
 namespace ASV.C12
 open ASV ASV.RegionExtract
 
@@ -82,10 +84,10 @@ def ShiftSameBases (rd : RegionData) (rec : BioRecord) (w : Written) : Prop :=
 /-- Proved under `wfInput rd rec`: the record is not empty; the region lies in it (`0 ≤ start < end ≤ L`, or
     `0 < end ≤ start < L` over the origin, `start = end` being a region all the way round); every feature has
     non-empty parts inside the record; and, only for a region over the origin, where `offset_location` is at
-    work: a feature running over the origin has one part on each side, or is shorter than the record and
-    `rotOK` (parts of one strand; no three exons in a row each ending where the next starts — there
-    `offset_location` itself drops bases, KF-C12-abutting-exons); any other feature has exons fitting into its
-    hull and is `rotOK`.  Nothing else is assumed: any number of exons, both strands. -/
+    work: a feature running over the origin has one part on each side, or is shorter than the record with all
+    parts on one strand (`oneStrand`: abutting pieces of different strands make `offset_location` raise); any
+    other feature has exons fitting into its hull and all parts on one strand.  Nothing else is assumed: any
+    number of exons, abutting exons in runs of any length (after the repair D58), both strands. -/
 theorem shift_same_bases_partial (rd : RegionData) (rec : BioRecord) (w : Written)
     (h : writeToGenbank rd rec = .ok w) (hwf : wfInput rd rec = true) : ShiftSameBases rd rec w :=
   fun g hg => written_sameBases rd rec w h hwf g hg
@@ -127,28 +129,43 @@ theorem renumber_consistent (rd : RegionData) (rec : BioRecord) (w : Written)
 def ExtractReloads (rd : RegionData) (rec : BioRecord) (w : Written) : Prop :=
   selfConsistent rec.length rd w.extract.features = true
 
-/-- Proved: four of the five parts of `selfConsistent`, the numbering ones exactly as executed —
+/-- Proved: all five parts of `selfConsistent`, four of them exactly as executed —
     * `numberedAsLoaded` for protoclusters, candidate clusters and subregions: all written features of the kind
       carry a number, the numbers are `1..n` each exactly once (`n` = how many are written = how many areas the
       region has), and a feature that a loading record (`CDSCollection.__lt__`) orders strictly before another
       carries the smaller number;
     * `refsInRange`: every reference by number (region → candidates, subregions; candidate → protoclusters;
       core → protocluster) is the number of a feature present in the file;
+    * `oneRegion`: the file has exactly one region feature and it spans the whole file;
     * `CoresAgree`: the `core_location` text of each written protocluster reads back through
       `location_from_string` (shared `string_roundtrip`) to a location covering exactly the bases of the written
-      `proto_core` feature of the same number.
+      `proto_core` feature of the same number — the pointwise form of the executable `coresAgree`, which compares
+      canonical interval lists (the one difference to `ExtractReloads`).
     Hypotheses: `wfInput`; `consistent` — the record's features and `RegionData` describe the same areas
     (number ↦ location, one feature per area and kind, distinct numbers per kind, areas and cores inside the
     region, one forward part or a forward pair over the origin), features are told apart by `tag`, and a feature
-    running over the origin reaches from the record's first to its last base.
-    Missing for `ExtractReloads`: `oneRegion` (the single region feature spans the file). -/
+    running over the origin reaches from the record's first to its last base; `regionFeatureOK` — exactly one
+    `region` feature can reach the file and it has the region's location. -/
 theorem extract_reloads_partial (rd : RegionData) (rec : BioRecord) (w : Written)
-    (h : writeToGenbank rd rec = .ok w) (hwf : wfInput rd rec = true) (hcons : consistent rd rec = true) :
+    (h : writeToGenbank rd rec = .ok w) (hwf : wfInput rd rec = true) (hcons : consistent rd rec = true)
+    (hreg : regionFeatureOK rd rec = true) :
     numberedAsLoaded (·.q.protoNumber) (ofType "protocluster" w.extract.features) = true ∧
     numberedAsLoaded (·.q.candNumber) (ofType "cand_cluster" w.extract.features) = true ∧
     numberedAsLoaded (·.q.subNumber) (ofType "subregion" w.extract.features) = true ∧
-    refsInRange w.extract.features = true ∧ CoresAgree w.extract.features :=
-  written_selfconsistent rd rec w h hwf hcons
+    refsInRange w.extract.features = true ∧ oneRegion rec.length rd w.extract.features = true ∧
+    CoresAgree w.extract.features := by
+  obtain ⟨h1, h2, h3, h4, h5⟩ := written_selfconsistent rd rec w h hwf hcons
+  obtain ⟨htags, hspan, _⟩ := consistent_unpack rd rec hcons
+  exact ⟨h1, h2, h3, h4, written_oneRegion rd rec w h hwf htags hspan hreg, h5⟩
+
+/-- The write does not raise: under `wfInput` every `offset_location` call of the extraction succeeds (features
+    after the origin, features over the origin, core locations), and with every dictionary lookup of
+    `_adjust_features` finding its key and the motif texts reading back (`writable`) `write_to_genbank` returns.
+    Remaining hypothesis: `writable` (a `KeyError` for a feature whose number is not one of the region's is the
+    code's behaviour) and `consistent` (used for the core locations). -/
+theorem write_succeeds_partial (rd : RegionData) (rec : BioRecord) (hwf : wfInput rd rec = true)
+    (hcons : consistent rd rec = true) (hwr : writable rd rec = true) : ∃ w, writeToGenbank rd rec = .ok w :=
+  write_ok rd rec hwf hcons hwr
 
 /-- The written cross references resolve to the images of the original referents: for every area of the region
     (number `n` in the record, of any of the three kinds) the record's feature of that kind carrying `n` has an
@@ -200,6 +217,8 @@ def exLater : RegionData := { start := 13, «end» := 15, cands := [], subs := [
 
 example : wfInput exCross exRec = true ∧ wfInput exLater exRec = true := by decide
 example : consistent exCross exRec = true ∧ consistent exLater exRec = true := by decide
+example : regionFeatureOK exCross exRec = true ∧ regionFeatureOK exLater exRec = true := by decide
+example : writable exCross exRec = true ∧ writable exLater exRec = true := by decide
 /-- on the example the numbering part of the full statement holds too -/
 example : (writeToGenbank exCross exRec).toOption.map (fun w =>
       numberedAsLoaded (·.q.protoNumber) (ofType "protocluster" w.extract.features) &&
